@@ -148,6 +148,136 @@ def shrink_tree(tree):
     return tree
 
 
+# --------------------------------------------------------------------------
+# how the operand got its value (search-only stream, CPython's own execution of the whole program is the oracle)
+
+# pinned cases: (form, stale, stmt, op, left class, left source, right class, right source)
+BINDING_SEEDS = [
+    ("unpack", False, "assign", "b:add", "int", "3", "str", "'ab'"),
+    ("swap", False, "lit-right", "b:add", "str", "'ab'", "int", "3"),          # a = 3; b = 'ab'; a, b = b, a; r = a + 3
+    ("swap", False, "lit-right", "b:lshift", "float", "2.5", "int", "3"),
+    ("unpack-list-target", False, "assign", "c:in", "int", "3", "str", "'ab'"),
+    ("unpack-paren", False, "assign", "b:mult", "str", "'ab'", "float", "2.5"),
+    ("unpack", False, "assign", "c:lt", "list", "[1, 2]", "tuple", "(1, 2)"),
+    ("swap", False, "lit-right", "b:add", "list", "[1, 2]", "list", "[7]"),
+    ("for-zip", True, "augassign", "b:sub", "str", "'ab'", "int", "1"),
+    ("rotate3", False, "assign", "b:add", "int", "3", "str", "'ab'"),
+]
+BINDING_CORE_OPS = ["b:add", "b:mult", "c:lt", "c:in"]
+_BIND_LEVEL = {}
+
+
+def binding_type_level(stmt, op, ca, cb):
+    """CPython raises TypeError for those operand TYPES, applied this way: every pair of representatives raises when
+    the operands are bound by plain assignment (an augmented assignment has its own truth: [1] += (2,) is fine)"""
+    kind = "augassign" if stmt == "augassign" else "assign"
+    key = (kind, op, ca, cb)
+    if key not in _BIND_LEVEL:
+        outs = []
+        for a, b in itertools.product(tc.REPS[ca], tc.REPS[cb]):
+            outs.append(tc.run_cpython(tc.binding_program("plain", False, kind, op, ca, a, cb, b))[0] == "TypeError")
+        _BIND_LEVEL[key] = all(outs)
+    return _BIND_LEVEL[key]
+
+
+def binding_cases(rng, tier, broken):
+    forms = tc.active_binding_forms()
+    for c in BINDING_SEEDS:
+        if c[0] in forms:
+            yield c
+    others = [o for o in tc.OPS if o not in BINDING_CORE_OPS]
+    pairs = list(itertools.product(tc.CORE, repeat=2))
+    for form in forms:
+        for stale in (False, True):
+            for ca, cb in pairs:
+                # quick (~11k programs): the four core operators (+ two random others for a fresh binding);
+                # thorough (~75k): every operator.  A broken correspondence does not widen this stream: it is about
+                # the binding forms, the operator table has its own widening below.
+                if tier == "quick":
+                    ops = BINDING_CORE_OPS + ([] if stale else rng.sample(others, 2))
+                else:
+                    ops = list(tc.OPS)
+                for i, op in enumerate(ops):
+                    if i == 0:
+                        stmts = ["assign"]
+                    elif i == 1:
+                        stmts = ["lit-right"]
+                    else:
+                        stmts = [rng.choice(tc.STMT_KINDS)]
+                    if tier != "quick" and not stale:
+                        stmts = sorted(set(stmts + ["assign"]))
+                    for stmt in stmts:
+                        sa = tc.REPS[ca][0] if i == 0 else rng.choice(tc.REPS[ca])
+                        sb = tc.REPS[cb][0] if i == 0 else rng.choice(tc.REPS[cb])
+                        yield (form, stale, stmt, op, ca, sa, cb, sb)
+
+
+def binding_replay(case, code):
+    form, stale, stmt, op, ca, sa, cb, sb = case
+    return {"binding": form, "stale": stale, "stmt": stmt, "op": op, "left": [ca, sa], "right": [cb, sb], "code": code}
+
+
+def judge_binding(case, info=None):
+    """-> None | (signature, what, code).  Real TIFA on the whole program vs plain CPython running the same program."""
+    form, stale, stmt, op, ca, sa, cb, sb = case
+
+    def skip(reason):
+        if info is not None:
+            info["skipped"][reason] = info["skipped"].get(reason, 0) + 1
+    code = tc.binding_program(*case)
+    if code is None:
+        return None
+    if not tc.binding_delivers(form, stale, ca, sa, cb, sb):
+        skip("binding form %s cannot deliver these values (e.g. unhashable dict key)" % form)
+        return None
+    if info is not None:
+        info["evaluations"] += 1
+        info["binding_programs"] = info.get("binding_programs", 0) + 1
+    run = tc.run_cpython(code)
+    real = tc.run_tifa_code(code)
+    shown = code.replace("\n", "; ")
+    verdict = None
+    if not real["success"]:
+        if run[0] in ("ok", "TypeError"):
+            verdict = ("tifa-failed", "TIFA failed to analyse %s: %s" % (shown, real["error"]))
+        else:
+            skip("tifa-failed-on-non-TypeError-run")
+    elif run[0] == "other":
+        skip("run raised %s (no obligation)" % run[1])
+    elif run[0] == "TypeError":
+        if not binding_type_level(stmt, op, ca, cb):
+            skip("value-dependent TypeError (no obligation)")
+        elif not real["flagged"]:
+            verdict = ("missed-type-error", "CPython raises TypeError (%s) for %s %s %s but TIFA reports nothing on %s"
+                       % (run[1], ca, tc.OPS[op][0], cb, shown))
+        elif info is not None:
+            info["binding_obligations"] = info.get("binding_obligations", 0) + 1
+    elif real["flagged"]:
+        skip("TIFA flags an expression CPython accepts (not constrained)")
+    else:
+        value = run[1]
+        conf = tc.conforms(value, real["result"]) if real["result"] is not None else "r has no type"
+        if conf is not True:
+            verdict = ("nonconforming-result", "r is a %s (%r) after %s but TIFA silently infers %s (is_subtype -> %s)"
+                       % (type(value).__name__, value if len(repr(value)) < 60 else "...", shown,
+                          tc.ty_str(tc.enc_ty(real["result"])) if real["result"] is not None else "nothing", conf))
+        elif info is not None:
+            info["binding_obligations"] = info.get("binding_obligations", 0) + 1
+            if real["result"] is not None and tc.enc_ty(real["result"])[0] != "any":
+                info["binding_typed_results"] = info.get("binding_typed_results", 0) + 1
+    if verdict is None:
+        return None
+    # Is it the operator table (or an open finding about it) and not the binding?  The same operands bound by plain
+    # assignment, as the two-leaf tree the rest of the check uses: if that fails the same way, its signature is kept.
+    tree, treal = run_case(("N", op, ("L", ca, sa, None), ("L", cb, sb, None)))
+    plain = judge_tree(tree, treal)
+    if plain is not None and plain[0]["kind"] == verdict[0]:
+        return (plain[0], plain[1], tc.program_of(tree), {"tree": tc.tree_json(tree), "code": tc.program_of(tree)})
+    if tc.open_family(form, ca, cb):                   # one open record per family, whichever kind
+        return ({"binding": form}, verdict[1], code, binding_replay(case, code))
+    return ({"kind": verdict[0], "binding": form}, verdict[1], code, binding_replay(case, code))
+
+
 def judge_value(v, facts):
     cls = type(v).__name__
     if "error" in facts:
@@ -280,7 +410,12 @@ def search(rng, tier, broken, corr):
                     "=> real is_subtype(get_pedal_type_from_value(result), inferred type); real value typing: no raise, "
                     "is_subtype(t,t) True on the first and on a repeated query, conforms to normalize_type(type(v)); "
                     "the correspondence cases, more random trees/values, (thorough) the whole table with all "
-                    "representative pairs and all depth-2 trees over one representative per class",
+                    "representative pairs and all depth-2 trees over one representative per class; operand BINDING "
+                    "forms (unpacking flat/nested/starred/list-target, swap and rotate idioms, chained, copies, "
+                    "augmented, for targets over lists/tuples/zip/enumerate/dict.items(), with-as, parameters, return "
+                    "values, lambda, comprehension variables, subscripts, if/else joins; each also after a STALE "
+                    "binding of another class) x r = a op b / a op literal / literal op b / r op= b: the whole program "
+                    "runs under plain CPython (oracle) and under tifa_analysis",
             "evaluations": 0, "distinct_nontrivial": 0, "samples": [], "skipped": {}}
     failures, seen = [], set()
     nt = set()
@@ -339,7 +474,23 @@ def search(rng, tier, broken, corr):
     for _ in range(n):
         v = tc.gen_value(rng)
         consider_value(v, tc.value_facts(v))
-    if tier == "thorough" or (broken and not failures):
+    # how the operands got their values: every binding form x stale previous binding x ordered class pair x operators
+    per_form, n_binding_failures = {}, 0
+    for case in binding_cases(rng, tier, broken):
+        v = judge_binding(case, info)
+        per_form[case[0]] = per_form.get(case[0], 0) + 1
+        if v is None:
+            continue
+        key = json.dumps(v[0], sort_keys=True)
+        if key in seen or ("kind" in v[0] and n_binding_failures >= (40 if tc.gated_on() else 6)):
+            continue
+        seen.add(key)
+        failures.append(Failure(v[0], v[1], v[3]))
+        if "kind" in v[0]:                             # a family record is shown once and uses up no slot
+            n_binding_failures += 1
+    info["binding_forms"] = per_form
+    info["binding_forms_gated_off"] = sorted(f for f in tc.GATED_FORMS if f not in per_form)
+    if tier == "thorough" or (broken and not [f for f in failures if "kind" in f.signature]):
         one = {c: tc.REPS[c][0] for c in tc.CORE}
         leaves = [("L", c, one[c], None) for c in tc.CORE]
         ops = list(tc.OPS)
@@ -362,6 +513,20 @@ def replay(payload):
         else:
             print("TIFA failed:", real["error"])
         print("verdict:", judge_tree(tree, real))
+        return 0
+    if "binding" in rp:
+        case = (rp["binding"], rp["stale"], rp["stmt"], rp["op"], rp["left"][0], rp["left"][1], rp["right"][0], rp["right"][1])
+        code = tc.binding_program(*case) or rp.get("code", "")
+        print("program:\n" + code)
+        print("CPython:", tc.run_cpython(code))
+        real = tc.run_tifa_code(code)
+        if real["success"]:
+            print("TIFA: incompatible_types issued =", real["flagged"], "; type of r =",
+                  tc.ty_str(tc.enc_ty(real["result"])) if real["result"] is not None else None)
+        else:
+            print("TIFA failed:", real["error"])
+        v = judge_binding(case)
+        print("verdict:", v[:2] if v else None)
         return 0
     if "value" in rp:
         import ast
